@@ -11,10 +11,10 @@ from netqasm.lang.parsing.binary import deserialize
 from netqasm.lang.parsing.text import parse_text_subroutine
 from netqasm.lang.subroutine import Subroutine
 
-PATHS = ("direct", "text", "text+nv-transpiler", "text+nv-transpiler-others-zero", "setter", "instantiate", "template", "template-numpy-integer", "sdk", "sdk-array-index", "sdk-until-bound", "sdk-loop-bound")
+PATHS = ("direct", "direct-in-program", "text", "text-in-program", "text+nv-transpiler", "text+nv-transpiler-others-zero", "setter", "instantiate", "template", "template-numpy-integer", "sdk", "sdk-array-index", "sdk-until-bound", "sdk-loop-bound")
 CLASSICAL = ("jmp", "bez", "bnz", "beq", "bne", "blt", "bge", "set", "add", "sub", "addm", "subm", "store", "load", "lea", "undef", "array", "ret_reg", "ret_arr")
 ASSUME = [
-    "one out-of-range operand per vector, the others at in-range base values",
+    "one out-of-range operand per vector, the others at in-range base values; alone in its subroutine or between two in-range `set` instructions",
     "paths: direct construction; the text assembler; the text assembler followed by the NV transpiler (classical and branch instructions); Subroutine.app_id setter and Subroutine.instantiate(app_id) for the app id; a Template operand filled in by instantiate() for immediates of rotations; the SDK (rot_X/Y/Z numerator and denominator, constants of add / array initial values, the connection's app id) up to the serialised message",
     "wide values cross the TLC boundary as base-2^15 limbs",
     "text path: the text is what the real printer prints for the out-of-range instruction object (e.g. 'set R16 5')",
@@ -61,8 +61,15 @@ def attempt(path: str, v, cls, val):
         instr = isa.build(cls, v["shape"], ops)
         if path == "direct":
             b = bytes(Subroutine(instructions=[instr], app_id=app, netqasm_version=(0, 0)))
+        elif path == "direct-in-program":
+            # the instruction is neither the first nor the last of its subroutine (a check that looks at one end only is not enough)
+            pre, post = _padding(v["fl"])
+            b = bytes(Subroutine(instructions=[pre, instr, post], app_id=app, netqasm_version=(0, 0)))
         else:
             text = f"# NETQASM 0.0\n# APPID {app}\n{instr}\n"
+            if path == "text-in-program":
+                pre, post = _padding(v["fl"])
+                text = f"# NETQASM 0.0\n# APPID {app}\n{pre}\n{instr}\n{post}\n"
             sub = parse_text_subroutine(text, flavour=isa.FLAVOURS[v["fl"]]())
             if path in ("text+nv-transpiler", "text+nv-transpiler-others-zero"):
                 # the assembled (vanilla) subroutine goes through the NV transpiler before it is serialised
@@ -75,9 +82,17 @@ def attempt(path: str, v, cls, val):
     return "bytes", describe(b, v["fl"])
 
 
+def _padding(fl: str):
+    """Two in-range instructions of the flavour, to stand before and after the one under test."""
+    cl = {c.mnemonic: c for c in isa.classes(fl)}
+    return isa.build(cl["set"], "RegImm", [(0, 1), 1]), isa.build(cl["set"], "RegImm", [(0, 2), 2])
+
+
 def applicable(path: str, v) -> bool:
     if path in ("direct", "text"):
         return True
+    if path in ("direct-in-program", "text-in-program"):
+        return v["kind"] != "app"           # (the app id belongs to the subroutine, not to a position in it)
     if path == "text+nv-transpiler":
         return v["fl"] == "vanilla" and (v["mn"] in CLASSICAL or v["mn"] in ("rot_x", "rot_y", "rot_z"))
     if path == "text+nv-transpiler-others-zero":
